@@ -1149,7 +1149,7 @@ def main(ctx):
         lspecs["%s.sigmacritinv(zl,zs)" % ck] = (zpair, (lambda z, z2, c=cobj: c.sigmacritinv(z, z2)))
         lspecs["%s.sigmacritinv(0.3,zs)" % ck] = ((lambda: (zbase(),)), (lambda z, c=cobj: c.sigmacritinv(0.3, z)))
         lspecs["%s.sigmacritinv(zl,2)" % ck] = ((lambda: (zbase(),)), (lambda z, c=cobj: c.sigmacritinv(z, 2.0)))
-    tiled_elementwise(ctx, "long-arrays", lspecs, marks(ctx), small=lambda l: not l.startswith("open."), small_marks=marks(ctx, small=True))
+    tiled_elementwise(ctx, "long-arrays", lspecs, marks(ctx), small=lambda l: not l.startswith("open."), small_marks=marks(ctx, small=True), harvest=([__import__("esutil.cosmology.cosmology", fromlist=["x"])], ["cosmology"]))
 
     # ------------------------------------------------------------ scalar arguments and parameters in other numeric types
     # redshifts as float32 / numpy and Python integers / 0-d arrays, H0 / omega_m as integers or float32 (values exact in
